@@ -118,19 +118,24 @@ func TestDiskChild(t *testing.T) {
 				txs = append(txs, ti.Bytes)
 			}
 		}
+		abort := func(e error) {
+			// the chain cannot go on (a failure of another property): the disk node is left as it is, not closed
+			say("abort %v", strings.ReplaceAll(e.Error(), "\n", " "))
+			os.Exit(0)
+		}
 		p, e := ch.Propose(0, txs, nil)
 		if e != nil {
-			t.Fatal(e)
+			abort(e)
 		}
 		vs, e := ch.Committee(ch.Nodes[0], p.QC.Header.RootHeight)
 		if e != nil {
-			t.Fatal(e)
+			abort(e)
 		}
 		if _, _, er := ch.Certify(p.QC, vs, w.SignerPick()); er != nil {
-			t.Fatal(er)
+			abort(er)
 		}
 		if e := ch.Deliver(0, p.QC, nil, false); e != nil {
-			t.Fatal(e)
+			abort(e)
 		}
 		writeRec(p.QC)
 		queue = append(queue, p.QC)
@@ -196,7 +201,7 @@ func runDiskCase(t *testing.T, run *core.Run, name string, idx int) {
 		t.Fatal(err)
 	}
 	defer os.RemoveAll(dir)
-	blocks := core.Pick(5, 8)
+	blocks := core.Pick(4, 8)
 	// the kill point: a file-system operation number. Chains of this size perform 15-35 operations per block with small
 	// memtables and 2-4 with the production memtable; a number beyond the end gives a process that exits without closing.
 	span := 25 * (blocks + 1)
@@ -260,6 +265,8 @@ func runDiskCase(t *testing.T, run *core.Run, name string, idx int) {
 			im.MaxV = v
 		case "done":
 			im.DoneV = v
+		case "abort":
+			run.Count("chains_ended_early_by_an_unrelated_failure", 1)
 		case "kill":
 			if len(f) >= 4 {
 				im.Op.Kind, im.Op.File = f[2], f[3]
@@ -284,7 +291,10 @@ func runDiskCase(t *testing.T, run *core.Run, name string, idx int) {
 		t.Fatalf("%s: load: %v", name, err)
 	}
 	im.FS = mem
-	run.Count("disk_children_killed", 1)
+	run.Count("disk_children_run", 1)
+	if killed {
+		run.Count("disk_children_sigkilled", 1)
+	}
 	run.Count("disk_files_loaded", int64(files))
 	ver.check(im, mem, idx%2 == 0)
 	run.Sample(map[string]any{"case": name, "mode": "disk", "memtable": diskMemTable(idx), "kill_at_op": killAt, "killed": killed, "boundary": im.At, "max_version": im.MaxV, "returned_version": im.DoneV, "files": files})
